@@ -36,10 +36,12 @@ type Case struct {
 	Perm    int      `json:"perm,omitempty"` // rotation of the keyword arguments
 	// Route tells how sequence-1 is obtained: "" a fresh literal, or the result of
 	// another operation (cdr sub rev nrev del fp push, see routes.go).
-	Route string `json:"route,omitempty"`
-	Same  bool   `json:"same,omitempty"`  // sequence-2 is the same object as sequence-1
-	Prior bool   `json:"prior,omitempty"` // a failed call of the same function on the same sequence precedes the call
-	Block string `json:"block,omitempty"`
+	Route  string `json:"route,omitempty"`
+	Route2 string `json:"route2,omitempty"` // "fp": sequence-2 is a vector with a fill pointer below its capacity
+	Dup    string `json:"dup,omitempty"`    // a keyword given a second time (start end count from-end): the leftmost pair counts
+	Same   bool   `json:"same,omitempty"`   // sequence-2 is the same object as sequence-1
+	Prior  bool   `json:"prior,omitempty"`  // a failed call of the same function on the same sequence precedes the call
+	Block  string `json:"block,omitempty"`
 }
 
 // expect is what the language definition pins for a case.
